@@ -75,6 +75,7 @@ static std::string classify_sanitizer(const std::string &errfile) {
         q = e == std::string::npos ? t.size() : e;
     }
     for (auto &c : kind) if (c == ' ') c = '_';
+    while (!kind.empty() && kind.back() == ':') kind.pop_back();
     return kind + (where.empty() ? "" : "@" + where);
 }
 
